@@ -96,7 +96,7 @@ func buildPkg(id string, m mcScenario, variant, layout int) *Scenario {
 	var tb strings.Builder
 	tb.WriteString("package p\n\n")
 	for _, k := range []string{"K1", "K2", "K3"} {
-		tb.WriteString(c11Structs[k][variant] + "\n\n")
+		tb.WriteString(c11Structs[k][variant%2] + "\n\n")
 	}
 	for _, r := range m.Resv {
 		ret, body := "bool", "a == b"
@@ -117,6 +117,11 @@ func buildPkg(id string, m mcScenario, variant, layout int) *Scenario {
 		ret := "bool"
 		if c.P == "compare" {
 			ret = "int"
+		}
+		if variant == 2 && c.K == "K3" {
+			// the one-argument curried form on *S1: its argument list (*S1) is a strict prefix of K1's (*S1, *S1)
+			fmt.Fprintf(b, "\nfunc use%d(a, b *S1) %s {\n\treturn %s(a)(b)\n}\n", j, ret, c.N)
+			continue
 		}
 		doc, eol, args := "", "", "a, b"
 		if layout&LayLineComments != 0 {
@@ -205,10 +210,12 @@ func checkC11(c *core.Ctx) error {
 			if c.Quick() {
 				if (i+int(c.Seed))%4 == 0 {
 					variant = 1
+				} else if (i+int(c.Seed))%4 == 2 {
+					variant = 2
 				}
 				scs = append(scs, concretiseC11(ci*1000000+i, ms[i], variant))
 			} else {
-				scs = append(scs, concretiseC11(ci*1000000+i, ms[i], 0), concretiseC11(ci*1000000+i, ms[i], 1))
+				scs = append(scs, concretiseC11(ci*1000000+i, ms[i], 0), concretiseC11(ci*1000000+i, ms[i], 1), concretiseC11(ci*1000000+i, ms[i], 2))
 			}
 		}
 	}
